@@ -1876,7 +1876,8 @@ class Data(BaseCartesianData):
                 chunk_shape = subset_state.to_mask(self, chunk_view).shape
                 full_shape = [chunk_shape[idim] for idim in range(self.ndim) if idim not in axis]
 
-            full_result = np.zeros(full_shape) * np.nan
+            # (np.full rather than np.zeros(...) * np.nan so that a 0-d result stays an array)
+            full_result = np.full(full_shape, np.nan)
             full_result[result_slices] = result
             return full_result
 
